@@ -60,8 +60,10 @@ func rewrite(src []byte, augs []Augmentation) ([]byte, []PosAdjustment) {
 	// clauses. Other augmentations MAY be present after that.
 	//
 	// Sort all augs by Start offset to retain the above ordering while ensuring
-	// that augmentations get written to the `dst` Buffer in order.
-	sort.Slice(augs, func(i, j int) bool { return augs[i].Start() < augs[j].Start() })
+	// that augmentations get written to the `dst` Buffer in order. The sort
+	// must be stable: FakePackage and FakeFunc start at offset 0, and so does
+	// a "..." on the first line of the patch, which has to stay behind them.
+	sort.SliceStable(augs, func(i, j int) bool { return augs[i].Start() < augs[j].Start() })
 	for _, aug := range augs {
 		start, end := aug.Start(), aug.End()
 		dst.Write(src[pos:start])
